@@ -850,3 +850,348 @@ Proof.
   exists 5, 5, star_witness_graph, 30, (MkMod false None [Star 10]), [20], 20.
   vm_compute. repeat split; try discriminate. left. reflexivity.
 Qed.
+
+(* ---- re-export redirection *)
+Definition py_match (f : nat) (g : graph) (n : name) (b : binding) : bool :=
+  match b with
+  | Star m' => py_has f g m' n
+  | _ => binds b n
+  end.
+
+Definition bvalue (rec : modname -> name -> res) (c : modname) (n : name) (b : binding) : res :=
+  match b with
+  | Def x => Found (TObj c x)
+  | Assign x => Found (TObj c x)
+  | From m x _ => rec m x
+  | Import m _ _ => Found (TMod m)
+  | Star m => rec m n
+  end.
+
+(* Python's scan stops at the first (= last in file order) statement that provides n *)
+Lemma scan_find : forall f g m n rbs,
+  scan (resolve f g) g m n rbs <> Timeout ->
+  scan (resolve f g) g m n rbs =
+  match find (py_match f g n) rbs with
+  | Some b => bvalue (resolve f g) m n b
+  | None => Unbound
+  end.
+Proof.
+  intros f g m n. induction rbs as [|b rbs IH]; intros Hnt; [reflexivity|].
+  cbn [scan find] in *. destruct b as [x|x|m' x a|m'|m' a d]; cbn [py_match binds bvalue].
+  - destruct (x =? n); [reflexivity|apply IH; exact Hnt].
+  - destruct (x =? n); [reflexivity|apply IH; exact Hnt].
+  - destruct (a =? n); [reflexivity|apply IH; exact Hnt].
+  - unfold py_has. destruct (find_mod g m') as [mi'|]; [|apply IH; exact Hnt].
+    destruct (exported mi' n); cbn [andb]; [|apply IH; exact Hnt].
+    destruct (resolve f g m' n) as [t| |] eqn:E; cbn [is_found].
+    + cbn [bvalue]. symmetry. exact E.
+    + apply IH. exact Hnt.
+    + exfalso. apply Hnt. reflexivity.
+  - destruct (a =? n); [reflexivity|apply IH; exact Hnt].
+Qed.
+
+Lemma find_ext_in : forall X (p q : X -> bool) l, (forall x, In x l -> p x = q x) -> find p l = find q l.
+Proof.
+  intros X p q l. induction l as [|x l IH]; intros H; cbn [find]; [reflexivity|].
+  rewrite (H x (or_introl eq_refl)). destruct (q x); [reflexivity|].
+  apply IH. intros y Hy. apply H. right. exact Hy.
+Qed.
+
+(* a star-free statement list: the value of n is that of the first statement binding it *)
+Lemma scan_nostar : forall rec g c n rbs,
+  has_star rbs = false ->
+  scan rec g c n rbs =
+  match find (fun b => binds b n) rbs with
+  | Some b => bvalue rec c n b
+  | None => Unbound
+  end.
+Proof.
+  intros rec g c n. induction rbs as [|b rbs IH]; intros Hs; [reflexivity|].
+  unfold has_star in Hs. cbn [existsb] in Hs. apply orb_false_iff in Hs. destruct Hs as [Hb Hs].
+  cbn [scan find]. destruct b as [x|x|m' x a|m'|m' a d]; cbn [binds bvalue]; try discriminate.
+  - destruct (x =? n); [reflexivity|apply IH; exact Hs].
+  - destruct (x =? n); [reflexivity|apply IH; exact Hs].
+  - destruct (a =? n); [reflexivity|apply IH; exact Hs].
+  - destruct (a =? n); [reflexivity|apply IH; exact Hs].
+Qed.
+
+Lemma count_binders_app : forall n l1 l2, count_binders n (l1 ++ l2) = count_binders n l1 + count_binders n l2.
+Proof. intros n l1 l2. unfold count_binders. rewrite filter_app, app_length. reflexivity. Qed.
+
+Lemma count_binders_rev : forall n l, count_binders n (rev l) = count_binders n l.
+Proof.
+  intros n l. induction l as [|b l IH]; [reflexivity|].
+  cbn [rev]. rewrite count_binders_app, IH. unfold count_binders. cbn [filter].
+  destruct (binds b n); cbn [length]; lia.
+Qed.
+
+Lemma count_zero_none : forall n l, count_binders n l = 0 -> forall b, In b l -> binds b n = false.
+Proof.
+  intros n l. induction l as [|b0 l IH]; intros H b Hin; [destruct Hin|].
+  unfold count_binders in H. cbn [filter] in H. destruct (binds b0 n) eqn:E; [cbn [length] in H; lia|].
+  destruct Hin as [Heq|Hin]; [subst; exact E|apply IH; assumption].
+Qed.
+
+(* with at most one binder, `find` returns THE binder wherever it stands *)
+Lemma find_unique : forall n l b,
+  count_binders n l <= 1 -> In b l -> binds b n = true -> find (fun b0 => binds b0 n) l = Some b.
+Proof.
+  intros n l. induction l as [|b0 l IH]; intros b Hc Hin Hb; [destruct Hin|].
+  cbn [find]. unfold count_binders in Hc. cbn [filter] in Hc.
+  destruct (binds b0 n) eqn:E.
+  - cbn [length] in Hc. destruct Hin as [Heq|Hin]; [subst; reflexivity|].
+    assert (Hz : count_binders n l = 0) by (unfold count_binders; lia).
+    rewrite (count_zero_none n l Hz b Hin) in Hb. discriminate.
+  - destruct Hin as [Heq|Hin]; [subst; rewrite Hb in E; discriminate|]. apply IH; assumption.
+Qed.
+
+Lemma find_none_count : forall n l, count_binders n l = 0 -> find (fun b0 => binds b0 n) l = None.
+Proof.
+  intros n l H. induction l as [|b0 l IH]; [reflexivity|]. cbn [find].
+  rewrite (count_zero_none n _ H b0 (or_introl eq_refl)). apply IH.
+  unfold count_binders in *. cbn [filter] in H. destruct (binds b0 n); [cbn [length] in H; lia|exact H].
+Qed.
+
+(* redirect1 keeps the local name *)
+Lemma redirect1_binds : forall F std g b b' n, redirect1 F std g b = Some b' -> binds b' n = binds b n.
+Proof.
+  intros F std g b b' n H. destruct b as [x|x|m x a|m|m a d]; cbn [redirect1] in H; try discriminate.
+  destruct (redirectable std g m) as [mi|]; [|discriminate].
+  destruct (t_trace F g true mi x) as [[y|y|m2 x0 a0|m2|m2 a0 d0]|]; try discriminate;
+    inversion H; subst; reflexivity.
+Qed.
+
+Lemma redirect1_nostar : forall F std g b b', redirect1 F std g b = Some b' ->
+  match b' with Star _ => False | _ => True end.
+Proof.
+  intros F std g b b' H. destruct b as [x|x|m x a|m|m a d]; cbn [redirect1] in H; try discriminate.
+  destruct (redirectable std g m) as [mi|]; [|discriminate].
+  destruct (t_trace F g true mi x) as [[y|y|m2 x0 a0|m2|m2 a0 d0]|]; try discriminate;
+    inversion H; subst; exact I.
+Qed.
+
+Definition phi (F : nat) (std : modname -> bool) (g : graph) (b : binding) : binding :=
+  match redirect1 F std g b with Some b' => b' | None => b end.
+
+Lemma before_from_split : forall bs, before_imports bs ++ from_first_import bs = bs.
+Proof.
+  induction bs as [|b bs IH]; [reflexivity|]. cbn [before_imports from_first_import].
+  destruct (is_import b); [reflexivity|]. cbn [app]. rewrite IH. reflexivity.
+Qed.
+
+Lemma before_imports_stay : forall F std g bs, filter (stays F std g) (before_imports bs) = before_imports bs.
+Proof.
+  intros F std g. induction bs as [|b bs IH]; [reflexivity|]. cbn [before_imports].
+  destruct (is_import b) eqn:E; [reflexivity|]. cbn [filter].
+  assert (Hs : stays F std g b = true).
+  { unfold stays. destruct b; cbn [is_import] in E; try discriminate; reflexivity. }
+  rewrite Hs, IH. reflexivity.
+Qed.
+
+Lemma before_imports_moved : forall F std g bs, moved F std g (before_imports bs) = [].
+Proof.
+  intros F std g. induction bs as [|b bs IH]; [reflexivity|]. cbn [before_imports].
+  destruct (is_import b) eqn:E; [reflexivity|]. unfold moved. cbn [flat_map]. fold (moved F std g (before_imports bs)).
+  rewrite IH. destruct b; cbn [is_import] in E; try discriminate; reflexivity.
+Qed.
+
+Lemma moved_app : forall F std g l1 l2, moved F std g (l1 ++ l2) = moved F std g l1 ++ moved F std g l2.
+Proof. intros. unfold moved. apply flat_map_app. Qed.
+
+(* the rewritten client contains exactly phi b for every b, possibly in another order *)
+Lemma fix_reimported_In : forall F std g bs b',
+  In b' (fix_reimported F std g bs) <-> exists b, In b bs /\ phi F std g b = b'.
+Proof.
+  intros F std g bs b'. unfold fix_reimported. rewrite !in_app_iff.
+  assert (Hm : forall l, In b' (moved F std g l) <-> exists b, In b l /\ redirect1 F std g b = Some b').
+  { intros l. unfold moved. rewrite in_flat_map. split.
+    - intros [b [Hb H]]. exists b. split; [exact Hb|]. destruct (redirect1 F std g b); [|destruct H].
+      destruct H as [H|[]]. subst. reflexivity.
+    - intros [b [Hb H]]. exists b. split; [exact Hb|]. rewrite H. left. reflexivity. }
+  assert (Hsplit : forall b, In b bs <-> In b (before_imports bs) \/ In b (from_first_import bs)).
+  { intros b. rewrite <- in_app_iff, before_from_split. tauto. }
+  split.
+  - intros [H|[H|H]].
+    + exists b'. split; [apply Hsplit; left; exact H|]. unfold phi.
+      rewrite <- (before_imports_stay F std g bs) in H. apply filter_In in H. destruct H as [_ H].
+      unfold stays in H. destruct (redirect1 F std g b'); [discriminate|reflexivity].
+    + apply Hm in H. destruct H as [b [Hb H]]. exists b. split; [exact Hb|]. unfold phi. rewrite H. reflexivity.
+    + apply filter_In in H. destruct H as [Hb H]. exists b'. split; [apply Hsplit; right; exact Hb|].
+      unfold phi, stays in *. destruct (redirect1 F std g b'); [discriminate|reflexivity].
+  - intros [b [Hb Hphi]]. unfold phi in Hphi. destruct (redirect1 F std g b) as [b''|] eqn:E.
+    + subst b''. right. left. apply Hm. exists b. auto.
+    + subst b'. apply Hsplit in Hb. destruct Hb as [Hb|Hb]; [left; exact Hb|].
+      right. right. apply filter_In. split; [exact Hb|]. unfold stays. rewrite E. reflexivity.
+Qed.
+
+Lemma count_moved_stays : forall F std g n l,
+  count_binders n (moved F std g l) + count_binders n (filter (stays F std g) l) = count_binders n l.
+Proof.
+  intros F std g n. induction l as [|b l IH]; [reflexivity|].
+  unfold moved. cbn [flat_map filter]. fold (moved F std g l). unfold stays at 1.
+  destruct (redirect1 F std g b) as [b'|] eqn:E.
+  - rewrite count_binders_app. unfold count_binders at 1. cbn [filter].
+    rewrite (redirect1_binds F std g b b' n E).
+    unfold count_binders at 3. cbn [filter]. fold (count_binders n l).
+    destruct (binds b n); cbn [length]; unfold count_binders in *; lia.
+  - cbn [app]. unfold count_binders at 2 3. cbn [filter].
+    destruct (binds b n); cbn [length]; unfold count_binders in *; lia.
+Qed.
+
+Lemma fix_reimported_count : forall F std g n bs,
+  count_binders n (fix_reimported F std g bs) = count_binders n bs.
+Proof.
+  intros F std g n bs. unfold fix_reimported. rewrite !count_binders_app.
+  rewrite <- (before_from_split bs) at 2 4. rewrite moved_app, before_imports_moved. cbn [app].
+  rewrite count_binders_app.
+  rewrite <- (count_moved_stays F std g n (from_first_import bs)). lia.
+Qed.
+
+Lemma fix_reimported_nostar : forall F std g bs, has_star bs = false -> has_star (fix_reimported F std g bs) = false.
+Proof.
+  intros F std g bs H. unfold has_star in *. destruct (existsb _ (fix_reimported F std g bs)) eqn:E; [|reflexivity].
+  apply existsb_exists in E. destruct E as [b' [Hin Hb']].
+  apply fix_reimported_In in Hin. destruct Hin as [b [Hb Hphi]]. unfold phi in Hphi.
+  destruct (redirect1 F std g b) as [b''|] eqn:Er.
+  - subst b''. pose proof (redirect1_nostar F std g b b' Er) as Hn. destruct b'; try discriminate. destruct Hn.
+  - subst b'. assert (Hex : existsb (fun b0 => match b0 with Star _ => true | _ => false end) bs = true).
+    { apply existsb_exists. exists b. auto. }
+    rewrite H in Hex. discriminate.
+Qed.
+
+(* the guard: for every redirected `from m import x`, the tool's trace of x in m and Python's scan of
+   m agree on every statement of m *)
+Definition redirect_agrees (f F : nat) (std : modname -> bool) (g : graph) (bs : list binding) : bool :=
+  forallb (fun b => match b with
+                    | From m x _ =>
+                      match redirectable std g m with
+                      | Some mi_m => forallb (fun b0 => Bool.eqb (t_match g (t_has F g) x b0) (py_match f g x b0)) (body mi_m)
+                      | None => true
+                      end
+                    | _ => true
+                    end) bs.
+
+Lemma redirectable_find : forall std g m mi, redirectable std g m = Some mi -> find_mod g m = Some mi /\ has_all mi = None.
+Proof.
+  intros std g m mi H. unfold redirectable in H. destruct (std m); [discriminate|].
+  destruct (find_mod g m) as [mi0|]; [|discriminate]. destruct (is_init mi0); [discriminate|].
+  destruct (has_all mi0) eqn:Ea; [discriminate|]. inversion H. subst. auto.
+Qed.
+
+(* value of a redirected statement (one more unit of fuel on the new side) *)
+Lemma redirect1_value : forall f F std g c b b' n,
+  redirect1 F std g b = Some b' ->
+  redirect_agrees f F std g [b] = true ->
+  bvalue (resolve (S f) g) c n b <> Timeout ->
+  bvalue (resolve (S f) g) c n b' = bvalue (resolve (S f) g) c n b.
+Proof.
+  intros f F std g c b b' n Hr Hag Hnt.
+  destruct b as [x|x|m x a|m|m a d]; cbn [redirect1] in Hr; try discriminate.
+  unfold redirect_agrees in Hag. cbn [forallb] in Hag. rewrite andb_true_r in Hag.
+  destruct (redirectable std g m) as [mi|] eqn:Erd; [|discriminate].
+  destruct (redirectable_find std g m mi Erd) as [Hfind Hall].
+  cbn [bvalue] in *. cbn [resolve] in Hnt |- *. rewrite Hfind in *.
+  unfold t_trace in Hr. unfold all_filter_ok in Hr. rewrite Hall in Hr. cbn [negb andb] in Hr.
+  rewrite (find_ext_in _ _ (py_match f g x)) in Hr.
+  2:{ intros b0 Hb0. apply in_rev in Hb0. rewrite forallb_forall in Hag. apply eqb_prop. apply Hag. exact Hb0. }
+  rewrite (scan_find f g m x _ Hnt) in Hnt |- *.
+  destruct (find (py_match f g x) (rev (body mi))) as [tb|]; [|discriminate].
+  destruct tb as [y|y|m2 x0 a0|m2|m2 a0 d0]; try discriminate; inversion Hr; subst; cbn [bvalue] in *.
+  - change (resolve (S f) g m2 x0 = resolve f g m2 x0). apply resolve_mono. exact Hnt.
+  - change (resolve (S f) g m2 x = resolve f g m2 x). apply resolve_mono. exact Hnt.
+  - reflexivity.
+Qed.
+
+Lemma redirect_agrees_In : forall f F std g bs b, redirect_agrees f F std g bs = true -> In b bs -> redirect_agrees f F std g [b] = true.
+Proof.
+  intros f F std g bs b H Hin. unfold redirect_agrees in *. rewrite forallb_forall in H.
+  cbn [forallb]. rewrite (H b Hin). reflexivity.
+Qed.
+
+Lemma redirect1_source : forall F std g b b' s,
+  redirect1 F std g b = Some b' -> import_source b' = Some s ->
+  exists m mi b0, find_mod g m = Some mi /\ In b0 (body mi) /\ import_source b0 = Some s.
+Proof.
+  intros F std g b b' s Hr Hs. destruct b as [x|x|m x a|m|m a d]; cbn [redirect1] in Hr; try discriminate.
+  destruct (redirectable std g m) as [mi|] eqn:Erd; [|discriminate].
+  destruct (redirectable_find std g m mi Erd) as [Hfind _].
+  unfold t_trace in Hr. destruct (true && negb (all_filter_ok mi x)); [discriminate|].
+  destruct (find (t_match g (t_has F g) x) (rev (body mi))) as [tb|] eqn:Ef; [|discriminate].
+  apply find_some in Ef. destruct Ef as [Hin _]. apply in_rev in Hin.
+  destruct tb as [y|y|m2 x0 a0|m2|m2 a0 d0]; try discriminate; inversion Hr; subst; cbn [import_source] in Hs;
+    try discriminate; inversion Hs; subst.
+  - exists m, mi, (From s x0 a0). auto.
+  - exists m, mi, (Star s). auto.
+Qed.
+
+Lemma has_star_rev : forall l, has_star (rev l) = has_star l.
+Proof.
+  intros l. unfold has_star. induction l as [|b l IH]; [reflexivity|].
+  cbn [rev existsb]. rewrite existsb_app, IH. cbn [existsb]. rewrite orb_false_r. apply orb_comm.
+Qed.
+
+Theorem redirect_partial : forall f F std g c mi n,
+  find_mod g c = Some mi ->
+  client_leaf g c = true ->
+  has_star (body mi) = false ->
+  count_binders n (body mi) <= 1 ->
+  redirect_agrees f F std g (body mi) = true ->
+  resolve (S (S f)) g c n <> Timeout ->
+  resolve (S (S f)) (update_mod g c (set_body mi (fix_reimported F std g (body mi)))) c n = resolve (S (S f)) g c n.
+Proof.
+  intros f F std g c mi n Hf Hl Hns Hc Hag Hnt.
+  remember (S f) as f1 eqn:Ef1.
+  cbn [resolve] in *. rewrite (find_update_same g c mi _ Hf). rewrite Hf in *. cbn [set_body body].
+  set (bs := body mi) in *. set (bs' := fix_reimported F std g bs).
+  (* the new body only imports from modules other than the client *)
+  rewrite (scan_ext (resolve f1 g) _ g _ c n).
+  2:{ intros b' s Hb' Hs. apply in_rev in Hb'. apply fix_reimported_In in Hb'.
+      destruct Hb' as [b [Hb Hphi]]. unfold phi in Hphi.
+      assert (Hsc : s <> c).
+      { destruct (redirect1 F std g b) as [b''|] eqn:Er.
+        - subst b''. destruct (redirect1_source F std g b b' s Er Hs) as [m [mi0 [b0 [H1 [H2 H3]]]]].
+          exact (client_leaf_source g c m mi0 b0 s Hl H1 H2 H3).
+        - subst b'. exact (client_leaf_source g c c mi b s Hl Hf Hb Hs). }
+      split; [intros x; apply resolve_update_other; assumption|apply find_update_other; exact Hsc]. }
+  rewrite (scan_nostar _ g c n (rev bs')).
+  2:{ rewrite has_star_rev. apply fix_reimported_nostar. exact Hns. }
+  rewrite (scan_nostar _ g c n (rev bs)) in Hnt |- *.
+  2,3: rewrite has_star_rev; exact Hns.
+  destruct (find (fun b => binds b n) (rev bs)) as [b|] eqn:Efind.
+  - apply find_some in Efind. destruct Efind as [Hin Hb]. apply in_rev in Hin.
+    assert (Hin' : In (phi F std g b) (rev bs')).
+    { apply -> in_rev. apply fix_reimported_In. exists b. auto. }
+    assert (Hb' : binds (phi F std g b) n = true).
+    { unfold phi. destruct (redirect1 F std g b) as [b'|] eqn:Er; [|exact Hb].
+      rewrite (redirect1_binds F std g b b' n Er). exact Hb. }
+    rewrite (find_unique n (rev bs') (phi F std g b)); [| |exact Hin'|exact Hb'].
+    2:{ rewrite count_binders_rev. unfold bs'. rewrite fix_reimported_count. exact Hc. }
+    unfold phi. destruct (redirect1 F std g b) as [b'|] eqn:Er; [|reflexivity].
+    subst f1. apply (redirect1_value f F std g c b b' n Er); [|exact Hnt].
+    apply (redirect_agrees_In f F std g bs b Hag Hin).
+  - rewrite find_none_count; [reflexivity|].
+    rewrite count_binders_rev. unfold bs'. rewrite fix_reimported_count.
+    destruct (count_binders n bs) as [|k] eqn:Ek; [reflexivity|].
+    exfalso. unfold count_binders in Ek.
+    destruct (filter (fun b => binds b n) bs) as [|b0 l0] eqn:Efl; [discriminate|].
+    assert (Hb0 : In b0 (filter (fun b => binds b n) bs)) by (rewrite Efl; left; reflexivity).
+    apply filter_In in Hb0. destruct Hb0 as [Hb0 Hbn].
+    assert (Hfalse : binds b0 n = false).
+    { apply (find_none _ _ Efind b0). apply -> in_rev. exact Hb0. }
+    rewrite Hfalse in Hbn. discriminate.
+Qed.
+
+(* the guard on the number of binders is needed: module 6 re-exports `2` of module 0; the client
+   `from 0 import 4 as 2; from 6 import 2` -- the redirected import is inserted in front *)
+Definition redirect_witness_graph : graph :=
+  [(0, MkMod false None [Assign 2; Assign 4]); (6, MkMod false None [From 0 2 2]);
+   (8, MkMod false None [From 0 4 2; From 6 2 2])].
+Theorem redirect_refuted : exists f F std g c mi n,
+  find_mod g c = Some mi /\ client_leaf g c = true /\ has_star (body mi) = false /\
+  redirect_agrees f F std g (body mi) = true /\
+  resolve (S (S f)) g c n <> Timeout /\
+  resolve (S (S f)) (update_mod g c (set_body mi (fix_reimported F std g (body mi)))) c n <> resolve (S (S f)) g c n.
+Proof.
+  exists 5, 5, (fun _ => false), redirect_witness_graph, 8, (MkMod false None [From 0 4 2; From 6 2 2]), 2.
+  vm_compute. repeat split; discriminate.
+Qed.
